@@ -58,9 +58,17 @@ impl<T> EventSource for Park<'_, T> {
         let _g = self.delay_drop();
         // register the coroutine
         let wait_co = &self.queue.wait_co;
+        #[cfg(may_verif)]
+        let vid = crate::verif::co_vid(&co);
+        #[cfg(may_verif)]
+        crate::verif::pt("spscsub.store", crate::verif::addr(self.queue), vid, 0);
         wait_co.store(Blocker::new_coroutine(co));
         // re-check the state, only clear once after resume
+        #[cfg(may_verif)]
+        crate::verif::pt("spscsub.recheck", crate::verif::addr(self.queue), vid, 0);
         if !self.queue.queue.is_empty() {
+            #[cfg(may_verif)]
+            crate::verif::pt("spscsub.take", crate::verif::addr(self.queue), vid, 0);
             if let Some(co) = wait_co.take() {
                 run_coroutine(co.into_coroutine());
             }
@@ -108,6 +116,8 @@ impl Blocker {
             get_scheduler().schedule(co);
         } else {
             let thread = self.into_thread();
+            #[cfg(may_verif)]
+            crate::verif::note("th.unpark", crate::verif::thread_num(&thread), 0);
             thread.unpark();
         }
     }
@@ -148,10 +158,16 @@ impl<T> InnerQueue<T> {
     }
 
     pub fn send(&self, t: T) -> Result<(), T> {
+        #[cfg(may_verif)]
+        crate::verif::pt("spsc.send.load_port", crate::verif::addr(self), 0, 0);
         if unlikely(self.port_dropped.load(Ordering::Relaxed)) {
             return Err(t);
         }
+        #[cfg(may_verif)]
+        crate::verif::pt("spsc.send.push", crate::verif::addr(self), 0, 0);
         self.queue.push(t);
+        #[cfg(may_verif)]
+        crate::verif::pt("spsc.send.take", crate::verif::addr(self), 0, 0);
         if let Some(co) = self.wait_co.take() {
             co.unpark();
         }
@@ -163,16 +179,27 @@ impl<T> InnerQueue<T> {
             Err(TryRecvError::Empty) => {
                 if is_coroutine() {
                     let park = Park::new(self);
+                    #[cfg(may_verif)]
+                    crate::verif::pt("spsc.recv.yield", crate::verif::addr(&**self), 0, 0);
                     yield_with(&park);
                 } else {
                     let blocker = Blocker::new_thread(std::thread::current());
+                    #[cfg(may_verif)]
+                    crate::verif::pt("spsc.recv.reg", crate::verif::addr(&**self), 0, 0);
                     self.wait_co.store(blocker);
                     match self.try_recv() {
                         Err(TryRecvError::Empty) => {
                             // no data, wait for it
+                            #[cfg(may_verif)]
+                            crate::verif::note("th.park", crate::verif::thread_num(&std::thread::current()), 0);
                             std::thread::park();
+                            #[cfg(may_verif)]
+                            crate::verif::note("th.wake", crate::verif::thread_num(&std::thread::current()), 0);
+
                         }
                         data => {
+                            #[cfg(may_verif)]
+                            crate::verif::pt("spsc.recv.clear", crate::verif::addr(&**self), 0, 0);
                             self.wait_co.clear();
                             return data;
                         }
@@ -188,13 +215,19 @@ impl<T> InnerQueue<T> {
 
     #[inline]
     pub fn try_recv(&self) -> Result<T, TryRecvError> {
+        #[cfg(may_verif)]
+        crate::verif::pt("spsc.try.pop", crate::verif::addr(self), 0, 0);
         match self.queue.pop() {
             Some(data) => Ok(data),
             None => {
+                #[cfg(may_verif)]
+                crate::verif::pt("spsc.try.load_ch", crate::verif::addr(self), 0, 0);
                 if likely(self.channels.load(Ordering::Relaxed) > 0) {
                     Err(TryRecvError::Empty)
                 } else {
                     // there is no sender any more, should re-check
+                    #[cfg(may_verif)]
+                    crate::verif::pt("spsc.try.repop", crate::verif::addr(self), 0, 0);
                     self.queue.pop().ok_or(TryRecvError::Disconnected)
                 }
             }
@@ -202,13 +235,19 @@ impl<T> InnerQueue<T> {
     }
 
     fn drop_chan(&self) {
+        #[cfg(may_verif)]
+        crate::verif::pt("spsc.drop.store", crate::verif::addr(self), 0, 0);
         self.channels.store(0, Ordering::Relaxed);
+        #[cfg(may_verif)]
+        crate::verif::pt("spsc.drop.take", crate::verif::addr(self), 0, 0);
         if let Some(co) = self.wait_co.take() {
             co.unpark();
         }
     }
 
     pub fn drop_port(&self) {
+        #[cfg(may_verif)]
+        crate::verif::pt("spsc.port.store", crate::verif::addr(self), 0, 0);
         self.port_dropped.store(true, Ordering::Relaxed);
         // clear all the data
         while self.queue.pop().is_some() {}
